@@ -1,0 +1,199 @@
+// +build verif
+
+// Thin wrappers giving the external verification harness (/verif, property C18)
+// access to the block download scheduler (queue), peerConnection and PeerSet.
+// Compiled only with -tags verif; every method forwards to the unexported
+// original, the Dump/Set* helpers only read state or set a request's start time.
+
+package downloader
+
+import (
+	"sort"
+	"time"
+
+	"github.com/youchainhq/go-youchain/common"
+	"github.com/youchainhq/go-youchain/core/types"
+	"github.com/youchainhq/go-youchain/logging"
+)
+
+var (
+	VerifErrInvalidChain     = errInvalidChain
+	VerifErrInvalidBody      = errInvalidBody
+	VerifErrStaleDelivery    = errStaleDelivery
+	VerifErrNoFetchesPending = errNoFetchesPending
+)
+
+// VerifSetBlockCacheItems sets the size of the result window of queues created
+// afterwards and returns the previous value.
+func VerifSetBlockCacheItems(n int) int {
+	old := blockCacheItems
+	blockCacheItems = n
+	return old
+}
+
+// ---- peers -------------------------------------------------------------------
+
+type VerifPeer struct{ p *peerConnection }
+
+func VerifNewPeer(id string, peer Peer) *VerifPeer {
+	return &VerifPeer{newPeerConnection(id, peer, logging.New("peer", id))}
+}
+
+func (p *VerifPeer) ID() string                        { return p.p.id }
+func (p *VerifPeer) FetchBodies(r *VerifRequest) error { return p.p.FetchBodies(r.r) }
+func (p *VerifPeer) SetBodiesIdle(delivered int)       { p.p.SetBodiesIdle(delivered) }
+func (p *VerifPeer) BodiesIdle() bool                  { return p.p.blockIdle == 0 }
+func (p *VerifPeer) Lacking() []common.Hash {
+	p.p.lock.RLock()
+	defer p.p.lock.RUnlock()
+	out := make([]common.Hash, 0, len(p.p.lacking))
+	for h := range p.p.lacking {
+		out = append(out, h)
+	}
+	return out
+}
+func (p *VerifPeer) Lacks(h common.Hash) bool          { return p.p.Lacks(h) }
+
+type VerifPeerSet struct{ ps *PeerSet }
+
+func VerifNewPeerSet() *VerifPeerSet                { return &VerifPeerSet{newPeerSet()} }
+func (s *VerifPeerSet) Register(p *VerifPeer) error { return s.ps.Register(p.p) }
+func (s *VerifPeerSet) Unregister(id string) error  { return s.ps.Unregister(id) }
+func (s *VerifPeerSet) Registered(id string) bool   { return s.ps.Peer(id) != nil }
+func (s *VerifPeerSet) Len() int                    { return s.ps.Len() }
+
+// ---- queue -------------------------------------------------------------------
+
+type VerifQueue struct{ q *queue }
+
+type VerifRequest struct{ r *fetchRequest }
+
+// Numbers returns the block numbers of the request's headers (0 for an entry
+// already cleared by a delivery).
+func (r *VerifRequest) Numbers() []uint64 { return reqNumbers(r.r) }
+
+func reqNumbers(r *fetchRequest) []uint64 {
+	out := make([]uint64, 0, len(r.Headers))
+	for _, h := range r.Headers {
+		if h == nil {
+			out = append(out, 0)
+		} else {
+			out = append(out, h.Number.Uint64())
+		}
+	}
+	return out
+}
+
+type VerifResult struct {
+	Header       *types.Header
+	Transactions types.Transactions
+	Pending      int
+}
+
+func VerifNewQueue() *VerifQueue { return &VerifQueue{newQueue()} }
+
+func (v *VerifQueue) Prepare(offset uint64) { v.q.Prepare(offset, FullSync) }
+func (v *VerifQueue) Schedule(hs []*types.Header, from uint64) []*types.Header {
+	return v.q.Schedule(hs, from)
+}
+func (v *VerifQueue) ReserveBodies(p *VerifPeer, count int) (*VerifRequest, bool, error) {
+	r, progress, err := v.q.ReserveBodies(p.p, count)
+	if r == nil {
+		return nil, progress, err
+	}
+	return &VerifRequest{r}, progress, err
+}
+func (v *VerifQueue) CancelBodies(r *VerifRequest)                  { v.q.CancelBodies(r.r) }
+func (v *VerifQueue) Revoke(id string)                              { v.q.Revoke(id) }
+func (v *VerifQueue) ExpireBodies(ttl time.Duration) map[string]int { return v.q.ExpireBodies(ttl) }
+func (v *VerifQueue) PendingBlocks() int                            { return v.q.PendingBlocks() }
+func (v *VerifQueue) InFlightBlocks() bool                          { return v.q.InFlightBlocks() }
+func (v *VerifQueue) ShouldThrottleBlocks() bool                    { return v.q.ShouldThrottleBlocks() }
+func (v *VerifQueue) Idle() bool                                    { return v.q.Idle() }
+func (v *VerifQueue) DeliverBodies(id string, txs [][]*types.Transaction) (int, error) {
+	return v.q.DeliverBodies(id, txs)
+}
+
+// Results is the non-blocking form of what processFullSyncContent retrieves.
+func (v *VerifQueue) Results() []VerifResult {
+	rs := v.q.Results(false)
+	out := make([]VerifResult, len(rs))
+	for i, r := range rs {
+		out[i] = VerifResult{Header: r.Header, Transactions: r.Transactions, Pending: r.Pending}
+	}
+	return out
+}
+
+// Processable is countProcessableItems under the queue lock.
+func (v *VerifQueue) Processable() int {
+	v.q.lock.Lock()
+	defer v.q.lock.Unlock()
+	return v.q.countProcessableItems()
+}
+
+// SetRequestTime moves the start time of the peer's pending body request.
+func (v *VerifQueue) SetRequestTime(id string, t time.Time) bool {
+	v.q.lock.Lock()
+	defer v.q.lock.Unlock()
+	r, ok := v.q.blockPendPool[id]
+	if ok {
+		r.Time = t
+	}
+	return ok
+}
+
+type VerifSlot struct {
+	Nil     bool
+	Number  uint64
+	Hash    common.Hash
+	Pending int
+	HasTxs  bool
+	Txs     types.Transactions // the slot's body (same slice the queue holds; read-only)
+}
+
+type VerifQueueDump struct {
+	TaskQueue []uint64            // block numbers in the body task queue, ascending, duplicates kept
+	TaskPool  []uint64            // block numbers in blockTaskPool, ascending
+	Pend      map[string][]uint64 // peer id -> block numbers of its pending request, request order
+	Done      []common.Hash       // blockDonePool
+	Cache     []VerifSlot         // resultCache
+	Offset    uint64
+	Head      common.Hash
+}
+
+// Dump copies the body-download bookkeeping.  The task queue is read by popping
+// everything and pushing it back with the same priorities (priority = -number,
+// so the pop order is unaffected).
+func (v *VerifQueue) Dump() VerifQueueDump {
+	q := v.q
+	q.lock.Lock()
+	defer q.lock.Unlock()
+	d := VerifQueueDump{Pend: map[string][]uint64{}, Offset: q.resultOffset, Head: q.headerHead}
+	var items []*types.Header
+	for !q.blockTaskQueue.Empty() {
+		items = append(items, q.blockTaskQueue.PopItem().(*types.Header))
+	}
+	for _, h := range items {
+		q.blockTaskQueue.Push(h, -int64(h.Number.Uint64()))
+		d.TaskQueue = append(d.TaskQueue, h.Number.Uint64())
+	}
+	sort.Slice(d.TaskQueue, func(i, j int) bool { return d.TaskQueue[i] < d.TaskQueue[j] })
+	for _, h := range q.blockTaskPool {
+		d.TaskPool = append(d.TaskPool, h.Number.Uint64())
+	}
+	sort.Slice(d.TaskPool, func(i, j int) bool { return d.TaskPool[i] < d.TaskPool[j] })
+	for id, r := range q.blockPendPool {
+		d.Pend[id] = reqNumbers(r)
+	}
+	for h := range q.blockDonePool {
+		d.Done = append(d.Done, h)
+	}
+	for _, r := range q.resultCache {
+		if r == nil {
+			d.Cache = append(d.Cache, VerifSlot{Nil: true})
+			continue
+		}
+		d.Cache = append(d.Cache, VerifSlot{Number: r.Header.Number.Uint64(), Hash: r.Hash, Pending: r.Pending, HasTxs: r.Transactions != nil, Txs: r.Transactions})
+	}
+	return d
+}
